@@ -250,6 +250,9 @@ class AsyncHTTP11Connection(AsyncConnectionInterface):
             if (
                 self._h11_state.our_state is h11.DONE
                 and self._h11_state.their_state is h11.DONE
+                # We never pipeline requests, so anything received beyond the
+                # end of the response was not sent in reply to a request.
+                and not self._h11_state.trailing_data[0]
             ):
                 self._state = HTTPConnectionState.IDLE
                 self._h11_state.start_next_cycle()
